@@ -35,10 +35,13 @@ Record shift_action_ok (n : nat) (Dm : nat -> nat -> R) (fmin : (nat -> R) -> R)
   sh_fmin0 : forall v, (forall j, v j = 0) -> fmin v = 0
 }.
 
-Lemma ShiftT_ok n Dm fmin pi : shift_action_ok n Dm fmin pi -> tysys_ok n Dm fmin ShiftT pi.
+Lemma ShiftT_ok n Dm fmin pi : shift_action_ok n Dm fmin pi -> tysys_ok n Dm fmin n Dm fmin ShiftT pi 1.
 Proof.
   intros [Hperm HD Hf Hf0]. constructor; simpl; try discriminate.
-  - exact Hperm.
+  - apply (perm_range n _ Hperm).
+  - apply (perm_sumlaw n _ Hperm).
+  - apply (perm_maxlaw n _ Hperm).
+  - apply (perm_minlaw n _ Hperm).
   - reflexivity.
   - reflexivity.
   - intros; lra.
@@ -50,10 +53,11 @@ Proof.
   - intros a b _ x. rewrite !Rmult_1_l. reflexivity.
   - intros a b _ x. rewrite !Rmult_1_l. reflexivity.
   - intros a b _. split; lra.
-  - intros a b _ j k Hj Hk. rewrite (HD j k Hj Hk). ring.
-  - intros a b _. reflexivity.
+  - intros a b _. apply (perm_dphi n Dm pi Hperm). intros j k Hj Hk. rewrite (HD j k Hj Hk). ring.
+  - intros a b _. ring.
   - intros a b _ v v' Hv. rewrite Rmult_1_l. apply Hf. intros j Hj. rewrite Hv by exact Hj. lra.
-  - exact Hf0.
+  - split; exact Hf0.
+  - tauto.
 Qed.
 
 Definition shift_check (Gin : list (string * option unit)) (p : prog)
@@ -97,8 +101,8 @@ Proof.
     - split; intros k; apply (Hz y Hy). }
   split.
   - intros x u Hin j Hj.
-    pose proof (check_outputs_sound n Dm fmin ShiftT pi OK (assoc_env Gin) p outs rho rho' HG Hc1 x u Hin j Hj) as H.
+    pose proof (check_outputs_sound n Dm fmin n Dm fmin ShiftT pi 1 OK (assoc_env Gin) p outs rho rho' HG Hc1 x u Hin j Hj) as H.
     simpl in H. rewrite H. lra.
   - intros x Hin H0 j Hj.
-    apply (check_typed_sound n Dm fmin ShiftT pi OK (assoc_env Gin) p eqs rho rho' HG Hc2 x Hin H0 j Hj).
+    apply (check_typed_sound n Dm fmin n Dm fmin ShiftT pi 1 OK (assoc_env Gin) p eqs rho rho' HG Hc2 x Hin H0 j Hj).
 Qed.
